@@ -222,6 +222,10 @@ def checkCase (j : Json) : Except String Verdict := do
     let mut i := 0
     for (m, im) in ups.zip iups do
       v := v.cmp i "config.resolved" (resolvedJson m).compress (implResolvedJson im).compress ["C14", "C13"]
+      -- every listed skip-auth pattern is compiled, each as written (after template substitution): nothing merged, dropped or re-flagged
+      let gotSkip := (jstrArr im "skip").toOption.getD []
+      if gotSkip != m.opts.skipAuthRegex then
+        v := v.mon "C14" "skip_patterns_compiled_as_written" i s!"listed {m.opts.skipAuthRegex}, compiled {gotSkip}"
       if m.opts.skipAuthRegex != [] then v := v.br "loaded/skip-regex"
       i := i + 1
   -- monitor (C14 on the implementation's own output)
